@@ -72,6 +72,12 @@ func IndexFromReader(r io.Reader) (c Index, err error) {
 	c.Chunks = make([]IndexChunk, len(table.Items))
 	var lastOffset uint64
 	for i, r := range table.Items {
+		// The table holds the end of each chunk. Going backwards would only
+		// be caught by the size check below if the maximum is small enough
+		// for the wrapped-around size to exceed it.
+		if r.Offset < lastOffset {
+			return c, fmt.Errorf("invalid chunk table, offset %d follows %d", r.Offset, lastOffset)
+		}
 		c.Chunks[i].ID = r.Chunk
 		c.Chunks[i].Start = lastOffset
 		c.Chunks[i].Size = r.Offset - lastOffset
